@@ -666,6 +666,17 @@ def realise(facts, goal, model, tries=400, seed=0):
             base[a.a[0]] = v
         elif a.k == "un" and a.a[0] == "len" and a.a[1].k == "sym":
             blen[a.a[1].a[0]] = max(int(v), 0)
+    # derived scalar atoms with an obvious pre-image: (x // c) = v -> x = v*c ; (x * c) = v -> x = v // c ; (x >> k) = v -> x = v << k
+    for a, v in (model or {}).items():
+        if a.k == "op" and a.a[1].k == "sym" and a.a[2].k == "const" and isinstance(a.a[2].a[0], int) and a.a[1].a[0] not in bufs \
+                and a.a[1].a[0] not in base:
+            o, c = a.a[0], a.a[2].a[0]
+            if o == "//" and c > 0:
+                base[a.a[1].a[0]] = int(v) * c
+            elif o == "*" and c != 0:
+                base[a.a[1].a[0]] = int(v) // c
+            elif o == ">>" and c >= 0:
+                base[a.a[1].a[0]] = int(v) << c
     for n in bufs:
         blen.setdefault(n, 0)
     for a, v in (model or {}).items():
